@@ -95,7 +95,7 @@ DROPIN_FLAGS_ALL = [(7, 7), (6, 3), (5, 6), (0, 7), (1, 1), (2, 4), (4, 2), (3, 
 
 
 def _dropin_variants(seqs, flags, timeout):
-    return [dict(name='%s_f%d%d' % (n, f0, f1), defs={'H_K': len(ops), 'H_OPS': '{' + ','.join(str(o) for o in ops) + '}', 'H_FLAGS': '{%d,%d}' % (f0, f1), 'H_MAXTARGET': 4, 'H_HOOKS': 1}, reach_optional=True, timeout=timeout)
+    return [dict(name='%s_f%d%d' % (n, f0, f1), defs={'H_K': len(ops), 'H_OPS': '{' + ','.join(str(o) for o in ops) + '}', 'H_FLAGS': '{%d,%d}' % (f0, f1), 'H_MAXTARGET': 4, 'H_HOOKS': 1}, unwind=max(11, 2 * len(ops) + 3), reach_optional=True, timeout=timeout)
             for n, ops in seqs for (f0, f1) in flags]
 
 
